@@ -1954,9 +1954,9 @@ func (b *recBatch) maybeFailErr(cfg *cfg) error {
 
 func (b *recBatch) v0wireLength() int32 { return b.v1wireLength - 8 } // no timestamp
 func (b *recBatch) batchLength() int32  { return b.wireLength - 4 }   // no length prefix
-func (b *recBatch) flexibleWireLength() int32 { // uvarint length prefix
+func (b *recBatch) flexibleWireLength() int32 { // uvarint length prefix: compact bytes encode their length plus one
 	batchLength := b.batchLength()
-	return int32(kbin.UvarintLen(uvar32(batchLength))) + batchLength
+	return int32(kbin.UvarintLen(uvar32(batchLength+1))) + batchLength
 }
 
 // appendRecord saves a new record to a batch.
@@ -2123,13 +2123,16 @@ func (p *produceRequest) tryAddBatch(produceVersion int32, recBuf *recBuf, batch
 	batchWireLength, flexible, topicIDs := batch.wireLengthForProduceVersion(produceVersion)
 	batchWireLength += 4 // int32 partition prefix
 
+	if flexible {
+		batchWireLength++ // the partition's (empty) tagged field section
+	}
 	if partitions, exists := p.batches.bs[recBuf.topic]; !exists {
 		if topicIDs {
-			batchWireLength += 16 + 1 // topic ID size, compact array len for 1 item (if we are using topic IDs, we are definitely flexible)
+			batchWireLength += 16 + 1 + 1 // topic ID size, compact array len for 1 item, the topic's tagged field section (if we are using topic IDs, we are definitely flexible)
 		} else {
 			lt := int32(len(recBuf.topic))
 			if flexible {
-				batchWireLength += uvarlen(len(recBuf.topic)) + lt + 1 // compact string len, topic, compact array len for 1 item
+				batchWireLength += uvarlen(len(recBuf.topic)+1) + lt + 1 + 1 // compact string len (of len+1), topic, compact array len for 1 item, the topic's tagged field section
 			} else {
 				batchWireLength += 2 + lt + 4 // string len, topic, partition array len
 			}
@@ -2137,8 +2140,8 @@ func (p *produceRequest) tryAddBatch(produceVersion int32, recBuf *recBuf, batch
 	} else if flexible {
 		// If the topic exists and we are flexible, adding this
 		// partition may increase the length of our size prefix.
-		lastPartitionsLen := uvarlen(len(partitions))
-		newPartitionsLen := uvarlen(len(partitions) + 1)
+		lastPartitionsLen := uvarlen(len(partitions) + 1) // compact arrays encode their length plus one
+		newPartitionsLen := uvarlen(len(partitions) + 2)
 		batchWireLength += (newPartitionsLen - lastPartitionsLen)
 	}
 	// If we are flexible but do not know it yet, adding partitions may
